@@ -3,6 +3,6 @@ CONSTANTS
   RightNakUsesDx1 = FALSE
   MaxN = 5
   Spacings = {1, 2, 3}
-  DerivValues = {0, 1, 2}
+  DerivValues = {0, 2}
 INVARIANTS SlopesAgree ValuesAgree
 CHECK_DEADLOCK FALSE
